@@ -722,6 +722,21 @@ func fbits(w uint8, v uint64) float64 {
 	return math.Float64frombits(v)
 }
 
+// Floating point on bit patterns. The default constructors are bit-precise IEEE-754 encodings in
+// pure bit-vector arithmetic (sign/magnitude); the *Theory constructors build the same predicates in
+// the solver's FP theory and are used by the lemma harnesses that prove the two agree for all inputs.
+
+func fmag(ts *TermStore, a *Term) *Term { return ts.Bin(OBvAnd, a, ts.Const(a.w, mask(a.w-1))) }
+func fsign(ts *TermStore, a *Term) *Term {
+	return ts.Eq(ts.Extract(a, int(a.w)-1, int(a.w)-1), ts.Const(1, 1))
+}
+func finfBits(w uint8) uint64 {
+	if w == 32 {
+		return 0x7f800000
+	}
+	return 0x7ff0000000000000
+}
+
 func (ts *TermStore) FIsNaN(a *Term) *Term {
 	if a.op == OF32to64 {
 		return ts.FIsNaN(a.a)
@@ -729,7 +744,7 @@ func (ts *TermStore) FIsNaN(a *Term) *Term {
 	if a.op == OConst {
 		return ts.Bool(math.IsNaN(fbits(a.w, a.k)))
 	}
-	return ts.mk(OFIsNaN, 0, a, nil, nil, 0, 0, "")
+	return ts.Ult(ts.Const(a.w, finfBits(a.w)), fmag(ts, a))
 }
 
 // FIsInf: sign >0 +inf, <0 -inf, 0 either
@@ -740,12 +755,8 @@ func (ts *TermStore) FIsInf(a *Term, sign int) *Term {
 	if a.op == OConst {
 		return ts.Bool(math.IsInf(fbits(a.w, a.k), sign))
 	}
-	var pos, neg uint64
-	if a.w == 32 {
-		pos, neg = 0x7f800000, 0xff800000
-	} else {
-		pos, neg = 0x7ff0000000000000, 0xfff0000000000000
-	}
+	pos := finfBits(a.w)
+	neg := pos | uint64(1)<<(a.w-1)
 	switch {
 	case sign > 0:
 		return ts.Eq(a, ts.Const(a.w, pos))
@@ -759,6 +770,9 @@ func (ts *TermStore) FCmp(op Op, a, b *Term) *Term {
 	if a.w != b.w {
 		panic("FCmp width")
 	}
+	if a.op == OF32to64 && b.op == OF32to64 {
+		return ts.FCmp(op, a.a, b.a) // float32 -> float64 is exact and order preserving
+	}
 	if a.op == OConst && b.op == OConst {
 		x, y := fbits(a.w, a.k), fbits(b.w, b.k)
 		switch op {
@@ -770,8 +784,29 @@ func (ts *TermStore) FCmp(op Op, a, b *Term) *Term {
 			return ts.Bool(x == y)
 		}
 	}
-	return ts.mk(op, 0, a, b, nil, 0, 0, "")
+	if a.op == OF32to64 || b.op == OF32to64 {
+		return ts.mk(op, 0, a, b, nil, 0, 0, "") // mixed: leave to the FP theory
+	}
+	ma, mb := fmag(ts, a), fmag(ts, b)
+	sa, sb := fsign(ts, a), fsign(ts, b)
+	zero := ts.Const(a.w, 0)
+	noNaN := ts.And(ts.Not(ts.FIsNaN(a)), ts.Not(ts.FIsNaN(b)))
+	bothZero := ts.And(ts.Eq(ma, zero), ts.Eq(mb, zero))
+	eq := ts.And(noNaN, ts.Or(ts.Eq(a, b), bothZero))
+	lt := ts.And(noNaN, ts.Or(ts.And(ts.And(sa, ts.Not(sb)), ts.Not(bothZero)),
+		ts.Or(ts.And(ts.And(ts.Not(sa), ts.Not(sb)), ts.Ult(ma, mb)), ts.And(ts.And(sa, sb), ts.Ult(mb, ma)))))
+	switch op {
+	case OFEq:
+		return eq
+	case OFLt:
+		return lt
+	}
+	return ts.Or(lt, eq)
 }
+
+// FCmpTheory / FIsNaNTheory: the solver's own floating-point theory.
+func (ts *TermStore) FCmpTheory(op Op, a, b *Term) *Term { return ts.mk(op, 0, a, b, nil, 0, 0, "") }
+func (ts *TermStore) FIsNaNTheory(a *Term) *Term         { return ts.mk(OFIsNaN, 0, a, nil, nil, 0, 0, "") }
 
 func (ts *TermStore) F32to64(a *Term) *Term {
 	if a.op == OConst {
@@ -948,11 +983,17 @@ func (ts *TermStore) rebuild(t *Term, a, b, c *Term) *Term {
 	case OCtz:
 		return ts.Ctz(a)
 	case OFIsNaN:
-		return ts.FIsNaN(a)
+		if a.op == OConst {
+			return ts.FIsNaN(a)
+		}
+		return ts.FIsNaNTheory(a)
 	case OFIsInf:
 		return ts.mk(OFIsInf, 0, a, nil, nil, 0, 0, "")
 	case OFLt, OFLe, OFEq:
-		return ts.FCmp(t.op, a, b)
+		if a.op == OConst && b.op == OConst {
+			return ts.FCmp(t.op, a, b)
+		}
+		return ts.FCmpTheory(t.op, a, b)
 	case OF32to64:
 		return ts.F32to64(a)
 	}
